@@ -1,6 +1,7 @@
 import PlaybackProofs.RecorderSent
 import PlaybackProofs.OutKey
 import PlaybackProofs.OutDiff
+import PlaybackProofs.OutDiffReplay
 /-!
 # C03 — Captured outputs are exactly what the executing code sent
 
@@ -126,7 +127,30 @@ theorem C03_single_changed_value (p p' : Prog) (pre post : List (String × Optio
     getD (planOutputs [] p) k ≠ getD (planOutputs [] p') k ↔ k = .outArgs a ((proj a pre).length + 1) := by
   rw [planOutputs_eq_numberK, planOutputs_eq_numberK, hp, hp']; exact numberK_single_edit pre post a v v' hv k
 
+/-- Replay side, whole run: what a replay of ANY program `p'` against ANY recording `r` captures is the recorder numbering of
+the output calls `p'` makes along its replay path (each interception answered from `r` or by the missing-key policy; no site
+opted in to run-original, so no body runs) - one entry per call whose value could be captured, appended in call order. -/
+theorem C03_playback_outputs_are_sent (r : Recording) (p' : Prog)
+    (hq : p'.All (fun cfg _ _ => cfg.runOriginal = false) (fun _ _ _ => True)) (t : St) (h : Replaying r t) :
+    (exec t p').1.playbackOutputs = t.playbackOutputs ++ numberK t.counter (replaySends r t.counter p') :=
+  replay_outputs_are_sent r p' hq t h
+
+/-- The comparison a user makes - recorded outputs of `p` against the outputs captured while `p'` is replayed (from a fresh
+replay state: no outputs yet, counters empty) - differs under a key iff the key is (alias, n) and the n-th call on that alias
+in the recorded run and the n-th call on that alias in the replayed run sent different things (or only one of them happened). -/
+theorem C03_replay_difference_exact (r : Recording) (p p' : Prog)
+    (hq : p'.All (fun cfg _ _ => cfg.runOriginal = false) (fun _ _ _ => True)) (t : St) (h : Replaying r t)
+    (h0 : t.playbackOutputs = []) (hc : t.counter = []) (k : Key) :
+    getD (planOutputs [] p) k ≠ getD (exec t p').1.playbackOutputs k ↔
+      ∃ a n, k = .outArgs a (n + 1) ∧
+        ((proj a (sendsOf p))[n]?).bind id ≠ ((proj a (replaySends r [] p'))[n]?).bind id := by
+  rw [replay_outputs_are_sent r p' hq t h, h0, hc, planOutputs_eq_numberK, List.nil_append]
+  exact numberK_difference_exact _ _ k
+
 /-! Non-vacuity -/
+example : Replaying ⟨0, [], default⟩ { playback := some ⟨0, [], default⟩ } ∧
+    ({ playback := some ⟨0, [], default⟩ } : St).playbackOutputs = [] ∧
+    ({ playback := some ⟨0, [], default⟩ } : St).counter = [] := ⟨⟨rfl, rfl, rfl⟩, rfl, rfl⟩
 example : sendsOf (.callOut { name := "g", alias := "g", prepare := none, failOnMissing := true, default := .atom "" }
     ⟨[.atom "1"], []⟩ (.done (.out (.ret (.atom "r")))) (fun _ => .done (.out (.ret (.atom "x")))))
     = [] ++ ("g", some (.sent [.atom "1"] [])) :: [] := by
